@@ -103,7 +103,8 @@ Record deep_index := { di_exch : list (key * key); di_marker : list (key * key);
 (** what the models take from outside, as tables filled by the harness *)
 Record deep_tables := {
   dt_held : list (key * key * Z);            (* (account, denom) -> amount on hold when the exchange module starts *)
-  dt_pre_markers : list marker;              (* the marker accounts of the auth genesis *)
+  dt_pre_markers : list marker;              (* MarkerAccounts listed in the auth genesis (none after app/export.go) *)
+  dt_accnums : list (key * N);               (* address -> account number, every account of the auth genesis *)
   dt_next_acc : N;
   dt_rec_addrs : list (key * key * key);     (* (session id, record name) -> record address *)
   dt_vo0 : list (key * key);                 (* scope id -> holder of the scope coin in the bank genesis *)
@@ -118,6 +119,12 @@ Fixpoint find2 {V} (l : list (key * key * V)) (k1 k2 : key) : option V :=
 Definition held_fn (t : deep_tables) (a d : key) : Z := match find2 (dt_held t) a d with Some z => z | None => 0 end.
 Definition pre_table (t : deep_tables) : table marker :=
   tbuild (map (fun m => (k_account (mr_addr m), m)) (dt_pre_markers t)).
+Fixpoint find1 {V} (l : list (key * V)) (k : key) : option V :=
+  match l with
+  | [] => None
+  | (a, v) :: r => if kq k a then Some v else find1 r k
+  end.
+Definition accnum_fn (t : deep_tables) (a : key) : option N := find1 (dt_accnums t) a.
 Definition vo0_table (t : deep_tables) : table key := tbuild (dt_vo0 t).
 Definition rec_addr_fn (t : deep_tables) (sess name : key) : option key := find2 (dt_rec_addrs t) sess name.
 Definition blocked_fn (t : deep_tables) (a : key) : bool := existsb (kq a) (dt_blocked t).
@@ -128,7 +135,7 @@ Definition exch_model (t : deep_tables) (g : exch_genesis) : option (exch_genesi
   | None => None
   end.
 Definition marker_model (t : deep_tables) (g : marker_genesis) : option (marker_genesis * list (key * key)) :=
-  match marker_import (fun _ => true) (fun _ => true) (pre_table t) (dt_next_acc t) g with
+  match marker_import (fun _ => true) (fun _ => true) (pre_table t) (accnum_fn t) (dt_next_acc t) g with
   | Some s => match marker_export s with Some g' => Some (g', mks_index s) | None => None end
   | None => None
   end.
